@@ -5,6 +5,8 @@ import (
 	"os"
 	"strings"
 
+	"verif/internal/scratch"
+
 	"verif/explorer"
 	"verif/internal/space"
 )
@@ -25,7 +27,7 @@ func checkC13(r *Run) int {
 		base = append(base, space.F2(space.Representatives(), false)...)
 		base = append(base, space.F3(space.Representatives())...)
 	} else {
-		base = append(base, space.F2(space.Representatives(), false)...)
+		base = append(base, space.F2(space.Representatives()[:14], false)...)
 	}
 	var cases []*space.Case
 	for _, c := range base {
@@ -58,10 +60,11 @@ func checkC13(r *Run) int {
 			cases = append(cases, odd)
 		}
 	}
+	evaluate := func(cases []*space.Case, modName string) {
 	built, bin, err := r.generate(cases)
 	if err != nil {
-		fmt.Fprintln(os.Stderr, err)
-		return 2
+		r.HarnessErrs = append(r.HarnessErrs, err.Error())
+		return
 	}
 	r.phase("generate+build")
 	// group membership for compile verdicts
@@ -87,7 +90,7 @@ func checkC13(r *Run) int {
 		}
 		r.Outcomes["separate-compiles"]++
 		src := b.TF.Content()
-		imp := "scratch/cases/" + b.ID + "/"
+		imp := modName + "/cases/" + b.ID + "/"
 		if b.StructImport != "" {
 			imp += b.StructImport
 		} else {
@@ -112,6 +115,37 @@ func checkC13(r *Run) int {
 		}
 	}
 	compareDigests(r, res, func(x *explorer.Result) string { return x.Group + "/" + x.Root }, "separate-package-variant-behaves-differently")
+	}
+	evaluate(cases, "scratch")
+	// the same comparison in a module whose path starts with a digit (the struct package qualifier
+	// then needs the extra "_" protoc-gen-gogo puts in front of such identifiers)
+	{
+		var sub []*space.Case
+		for _, c := range cases {
+			if c.Family == "F4" || c.Family == "F5" || (r.Tier == "thorough" && c.Family != "F1") || strings.Contains(c.Label, "single/msgN") || strings.Contains(c.Label, "map/enum/") || strings.Contains(c.Label, "oneof/string") || strings.Contains(c.Label, "single/castDuration") || strings.Contains(c.Label, "embed/Rich/nullable/tag=false") {
+				if c.Variant == "same" || c.Variant == "separate/full-path" || c.Variant == "short+override" {
+					n := *c
+					fc := *c.File
+					n.File = &fc
+					n.Cfg = c.Cfg.Clone()
+					n.ID = ""
+					sub = append(sub, &n)
+				}
+			}
+		}
+		m2, err := scratch.New(verifDir)
+		if err == nil {
+			m2.ModName = "9lives.example/scratch"
+			m2.Tools = r.Mod.Tools
+			m2.GoCache = r.Mod.Cache()
+			first := r.Mod
+			r.Mod = m2
+			evaluate(sub, m2.ModName)
+			r.Mod = first
+			m2.GoCache = "" // shared with the first module, removed with it
+			m2.Cleanup()
+		}
+	}
 	return r.finish()
 }
 
